@@ -163,8 +163,14 @@ class Tr:
         raise Unsupported(f"regex op {op}")
 
     def language(self, mode):
+        return self.lang_items(list(self.f["tree"]), mode)
+
+    def lang_items(self, items, mode):
         """z3 regex for the set of strings on which `.match` / `.fullmatch` / `.search` succeeds."""
-        items = list(self.f["tree"])
+        items = list(items)
+        if len(items) == 1 and items[0][0] == "BRANCH":
+            # alternatives may carry their own anchors: the acceptance language is the union
+            return union(self.lang_items(list(alt), mode) for alt in items[0][1][1])
         start = end = None
         while items and items[0][0] == "AT" and items[0][1] in ("AT_BEGINNING", "AT_BEGINNING_STRING"):
             start = items.pop(0)[1]
